@@ -213,10 +213,13 @@ def check_sub(cell, sub, ctx):
             A4 = env.call("boost_beta3", lambda: A.boost_beta3(K))
             sc = R.scale_of(ac) * mpmath.sqrt(g2)
             env.eq_vec(f"{name}(beta) = boost_beta3(beta along {ax})", A2, A4, sc, g2 * 8)
-            gam = (1 if b1 >= 0 else -1) / mpmath.sqrt(1 - mpf(b1) ** 2)
-            A5 = env.call(name, lambda: fn(A, gamma=(gam if mp_ else float(gam))))
-            # float64: gamma rounded once -> beta recovered with relative error eps*gamma^2
-            env.eq_vec(f"{name}(beta) = {name}(gamma=sign(beta)/sqrt(1-beta^2))", A2, A5, sc, g2 * g2 * 8)
+            # gamma -> beta is ill-conditioned at beta = 0 (d beta/d gamma = 1/(beta gamma^3)): the
+            # gamma spelling is compared only for |beta| above the precision-dependent threshold and
+            # with the tolerance widened by 1/|beta|
+            if abs(b1) > (1e-12 if mp_ else 1e-4):
+                gam = (1 if b1 >= 0 else -1) / mpmath.sqrt(1 - mpf(b1) ** 2)
+                A5 = env.call(name, lambda: fn(A, gamma=(gam if mp_ else float(gam))))
+                env.eq_vec(f"{name}(beta) = {name}(gamma=sign(beta)/sqrt(1-beta^2))", A2, A5, sc, g2 * g2 * 8 / abs(mpf(b1)))
             nontrivial = abs(b1) > 1e-3
     elif law in ("cm_p4", "cm_beta3"):
         # the vector itself must be forward time-like
